@@ -7,7 +7,7 @@
    beneath.  Monitors: Spec/WorldSpec.v (c17_step, c16_step, c18_step,
    c09_step); proofs: Proofs/W_C17.v. *)
 From VF Require Import Base.Prelude Model.Cache Model.Session Model.Middleware Corr.WorldCorr Spec.WorldSpec.
-From VF Require Import Proofs.WorldBase Proofs.VerifyProofs Proofs.ServeLemmas Proofs.SessionProofs Proofs.W_C17 Proofs.W_C17H Proofs.W_C17P Proofs.W_Example.
+From VF Require Import Proofs.WorldBase Proofs.VerifyProofs Proofs.ServeLemmas Proofs.SessionProofs Proofs.W_C17 Proofs.W_C17H Proofs.W_C17P Proofs.W_C03I Proofs.W_Example.
 Open Scope N_scope.
 
 (* For every input of a ready instance: no panic flag, never the harness's
@@ -113,6 +113,16 @@ Print Assumptions C17_prefix_invariant.
 Theorem C17_prefix_tamper : forall (j j2 : jar), map fst j2 = map fst j -> prefix j -> prefix j2.
 Proof. exact prefix_same_names. Qed.
 Print Assumptions C17_prefix_tamper.
+
+(* Every login redirect stores, in cookies that are SET (not deleted), exactly the
+   state, nonce and verifier its URL shows: the recovery redirect really starts a
+   login that can be completed. *)
+Theorem C17_redirect_starts_login :
+  forall (E : env) (cfg : config) (st : inst) (now : time) (rq : request)
+         (rnd : istr * istr * istr) (ans : option answer),
+    c03_init_step (snd (serve E cfg st now rq rnd ans)) = true.
+Proof. exact c03_init_serve. Qed.
+Print Assumptions C17_redirect_starts_login.
 
 Print Assumptions C09_step.
 
